@@ -644,7 +644,9 @@ pub fn run(words: &[&str], ctx: &mut Ctx) -> String {
                 // next target of the plan built from the pager's pages-2+ routing information: another permitted
                 // replica while there is one, on its owning shard
                 let later: Vec<&Req> = frames.iter().filter(|f| carries_key(f, true)).collect();
-                let (Some(f1), Some(f2)) = (later.first().copied(), later.get(1).copied()) else {
+                // is there any other node the configuration permits (without failover: of the preferred datacenter)?
+                let elsewhere = (0..nodes.len()).any(|nd| nd != f.node && (pref == 0 || fo != 0 || nodes[nd].dc == Shape::dc_name(pref as usize - 1)));
+                let (Some(f1), Some(f2)) = (later.first().copied(), later.get(1).or(if elsewhere { None } else { later.first() }).copied()) else {
                     ctx.fail(format!("e2e route: key #{}: {} request(s) for page 2 arrived, 2 expected (the first was answered \"is bootstrapping\")", i, later.len()));
                     continue;
                 };
